@@ -465,6 +465,44 @@ PARAM_LISTS = [
 ]
 
 
+PARAM_LISTS_LITERAL_DEFAULTS = [
+    # defaults written as literals the parser does not read as ONE constant node (a sign, a display, a prefix, a complex number)
+    "lambda e, *, k=-1: e.x > k", "lambda e, *, k=-2.5: e.x * k > 1", "lambda e, *, k=(1, -2): e.f(k) > 1", "lambda e, *, k=u'a': e.f(k) > 1", "lambda e, *, k=1+2j: e.f(k) > 1",
+    "lambda e, *, k=[1, 2], d={'a': -1}: e.f(k, d) > 1", "lambda e, *, k=-0.0, j=+1: e.f(k, j) > 1", "lambda e, *, k=b'x', j=(): e.f(k, j) > 1", "lambda e=-1: e > 1", "lambda e=(1, (2, -3)): e[0] > 1",
+]
+
+
+def parameter_lists_callable(ctx):
+    """the same parameter lists given as python lambdas (source recovery, defaults python kept): emitted exactly as the text gives"""
+    texts = [t for t in PARAM_LISTS if "None" not in t] + PARAM_LISTS_LITERAL_DEFAULTS
+    src = modgen.DS_HEADER
+    cases = []
+    for i, text in enumerate(texts):
+        for opname in ("Select", "SelectMany", "Where"):
+            t = text if opname != "Where" or ">" in text else text.replace(": ", ": (", 1) + ") == 1"
+            src += f"def p{i}_{opname}(ds):\n    return ds.{opname}({t})\n"
+            cases.append((f"p{i}_{opname}", opname, t))
+    m = modgen.load(src, "c10p")
+    ds = m.DS()
+    for fn, opname, t in cases:
+        ctx.case(f"param-list|{opname}|callable|{t}", True)
+        ctx.count("parameter-list-cases-callable")
+        lam_in = astx.parse_expr(t)
+        w = {"op": opname, "mode": "callable", "text": t, "param_list_callable": True}
+        try:
+            s = getattr(m, fn)(ds)
+        except ValueError as e:
+            ctx.violation("undesigned-refusal:parameter-list", f"{opname}(callable): {t} :: ValueError {str(e)[:120]}", w)
+            continue
+        except Exception as e:
+            ctx.violation(f"internal-error:{type(e).__name__}@{astx.repo_frame(e, REPO)}", f"{opname}(callable): {t} :: {type(e).__name__}: {str(e)[:120]}", w)
+            continue
+        out = s.query_ast.args[1]
+        if not astx.struct_eq(out, lam_in):
+            ctx.violation("changed:parameter-list", f"{opname}(callable): {t} emitted as {astx.unparse(out)[:160]} :: {astx.first_diff(out, lam_in)}", w)
+    modgen.unload(m)
+
+
 def parameter_lists(ctx, ds):
     for text in PARAM_LISTS:
         for opname in ("Select", "SelectMany", "Where"):
@@ -661,6 +699,7 @@ def shard_main(ctx):
     if ctx.shard == 0:
         must_refuse(ctx, ds)
         parameter_lists(ctx, ds)
+        parameter_lists_callable(ctx)
         layout_texts(ctx, ds)
     if ctx.shard == 1 % ctx.nshards:
         supplied_object_lives_on(ctx, ds)
@@ -732,6 +771,9 @@ def replay(ctx, witness):
             return a
 
     ds = DS()
+    if witness.get("param_list_callable"):
+        parameter_lists_callable(ctx)
+        return
     if witness.get("later_life"):
         supplied_object_lives_on(ctx, ds)
         return
